@@ -16,7 +16,7 @@ let parse_side (s : string) : sideact =
     if n > 0 && String.contains "hfau" s.[n-1] then s.[n-1], String.sub s 0 (n-1) else ' ', s in
   let total = ref 0 in
   List.iter (fun p ->
-      if p = "I" then () else   (* a scripted idle period: no bytes *)
+      if p = "I" || p = "L" then () else   (* a scripted idle period: no bytes *)
       let p = match String.index_opt p '~' with Some i -> String.sub p 0 i | None -> p in
       let sz, cnt = match String.index_opt p 'x' with
         | Some i -> int_of_string (String.sub p 0 i), int_of_string (String.sub p (i+1) (String.length p - i - 1))
